@@ -6,6 +6,7 @@ package main
 
 import (
 	"bytes"
+	"fmt"
 
 	"github.com/pion/rtp/codecs"
 	"github.com/pion/rtp/codecs/av1/frame"
@@ -1086,6 +1087,39 @@ func av1LongLebPayloads(r *Rand) [][]byte {
 	return out
 }
 
+// av1FragmentedObu: ONE OBU without obu_size (header, optional extension byte, `body` bytes) carried as
+// the only element (W=1) of consecutive packets of at most `per` OBU bytes each: Y=1, then Z=1,Y=1 …,
+// then Z=1.  The depacketizer emits the reassembled OBU with an obu_size it computes itself, so `body`
+// decides how many LEB128 bytes that takes (1 below 2^7, 2 below 2^14, 3 below 2^21, 4 from 2^21).
+func av1FragmentedObu(r *Rand, ext bool, body, per int) [][]byte {
+	typ := byte(r.Pick(1, 3, 4, 5, 6, 7, 15)) // not a temporal delimiter (2) / tile list (8): those are dropped
+	o := make([]byte, 0, body+2)
+	if ext {
+		o = append(o, typ<<3|0x04, byte(r.Intn(256))&0xf8)
+	} else {
+		o = append(o, typ<<3)
+	}
+	o = append(o, r.Bytes(body)...)
+	var ps [][]byte
+	for off := 0; off < len(o); off += per {
+		end := off + per
+		if end > len(o) {
+			end = len(o)
+		}
+		h := byte(0x10)
+		if off > 0 {
+			h |= 0x80
+		}
+		if end < len(o) {
+			h |= 0x40
+		}
+		p := make([]byte, 0, 1+end-off)
+		p = append(p, h)
+		ps = append(ps, append(p, o[off:end]...))
+	}
+	return ps
+}
+
 func genAV1C09(x *Ctx) {
 	// all strings of at most 2 bytes (3 in the thorough tier), in runs fed to one receiver
 	var all [][]byte
@@ -1171,6 +1205,38 @@ func genAV1C09(x *Ctx) {
 			c.Tag("mutated-stream")
 			av1DepHist(c, av1Stream(c.R))
 		})
+	}
+	// one OBU reassembled from fragments whose size crosses a LEB128 width boundary of the obu_size the
+	// depacketizer writes (2^7, 2^14, 2^21), with and without extension header, followed by an ordinary
+	// small OBU on the same receiver
+	for _, k := range []int{7, 14, 21} {
+		for _, ext := range []bool{false, true} {
+			for _, d := range []int{-1, 0, 1, 2} {
+				k, ext, d := k, ext, d
+				if k == 21 && !(ext && d == 0) && !x.Thorough() {
+					// ≈ 2 MiB per case: one in the quick tier, the whole grid in the thorough tier
+					continue
+				}
+				x.Case(func(c *Case) {
+					body := 1<<uint(k) + d
+					if d == 2 {
+						body = 1<<uint(k) + c.R.Range(2, 5000)
+					}
+					lo := body/40 + 1 // at most ~40 fragments (every continuation re-copies the retained bytes)
+				if body < 300 {
+					lo = 1
+				}
+				per := c.R.Pick(c.R.Range(lo, body), c.R.Range(lo, body), 1200, c.R.Range(30000, 65535))
+					if k == 21 {
+						per = c.R.Pick(60000, c.R.Range(50000, 65535))
+					}
+					c.Tag(fmt.Sprintf("fragmented-obu-2^%d", k))
+					ps := av1FragmentedObu(c.R, ext, body, per)
+					ps = append(ps, av1FragmentedObu(c.R, c.R.Bool(), c.R.Range(1, 40), 16)...)
+					av1DepHist(c, ps)
+				})
+			}
+		}
 	}
 }
 
